@@ -946,7 +946,7 @@ impl Check for C19 {
         }
     }
     fn rule() -> &'static str {
-        "3/5 of the runs: a generated expression DAG (1-3 declared input variables with labels from {0,1,2}; 1-8/12 steps among the operator overloads + * - & | ^ << >> / - !, constants through fn_operation, operation() with 0-3 arguments and 0-3 results, handle clone, handle drop), built through var::build under 1-3 scheduler-chosen linear extensions of its data dependencies (the order in which independent sub-expressions hit the shared Rc<RefCell> builder), with builder invariants checked on the shared state after every step; in 1/5 of them a handle is leaked outside the closure. 2/5 of the runs: an arbitrary well-formed lax term with variable-labelled hyperedges of arity 0-3/0-3 and uniform or mixed incident labels, label-consistent pending unifications and arbitrary interfaces, for forget / forget_monogamous. Oracles: one non-variable hyperedge per applied operator, one variable hyperedge per variable, interfaces in declared order; the term (variables read as copies, reference interpreter), forget(term) (strict::eval) and forget_monogamous(term) all evaluate to the direct evaluation of the expression on 1-2 input vectors, for every explored linear extension; build is Err iff a handle was leaked, and then hands back exactly the state of the un-leaked run; forget results isomorphic to the reference (uniform variable hyperedges merged / removed, everything else intact), same type, no panic. Non-trivial iff an operator was applied / a variable hyperedge is present; distinct = distinct case fingerprints."
+        "3/5 of the runs: a generated expression DAG (1-3 declared input variables with labels from {0,1,2}; 1-8/12 steps among the operator overloads + * - & | ^ << >> / - !, constants through fn_operation, operation() with 0-3 arguments and 0-3 results, handle clone, handle drop), built through var::build under 1-3 scheduler-chosen linear extensions of its data dependencies (the order in which independent sub-expressions hit the shared Rc<RefCell> builder), with builder invariants checked on the shared state after every step; in 1/5 of them a handle is leaked outside the closure. 2/5 of the runs: an arbitrary well-formed lax term with variable-labelled hyperedges of arity 0-3/0-3 and uniform or mixed incident labels, label-consistent pending unifications and arbitrary interfaces, for forget / forget_monogamous. The test signature is multi-sorted (the operator label depends on both operand types) and every binary operator is non-commutative. Oracles: one non-variable hyperedge per applied operator, exactly the operator labels and node types the expression prescribes, interfaces in declared order; the term (variables read as copies, reference interpreter), forget(term) (strict::eval) and forget_monogamous(term) all evaluate to the direct evaluation of the expression on 1-2 input vectors, for every explored linear extension; build is Err iff a handle was leaked, and then hands back exactly the state of the un-leaked run; forget results isomorphic to the reference (uniform variable hyperedges merged / removed, everything else intact), same type, no panic. Non-trivial iff an operator was applied / a variable hyperedge is present; distinct = distinct case fingerprints."
     }
     fn assumptions() -> Vec<&'static str> {
         vec![
